@@ -162,7 +162,6 @@ Fixpoint get_many (h : heap V) (zs : list Z) (acc : list V) : res (option (list 
   end.
 
 Definition step (b : bstate V) (o : op) : bstate V * out :=
-  let h := flatten b in
   match o with
   | OInsert k v =>
       match b_insert b k v with
@@ -172,48 +171,48 @@ Definition step (b : bstate V) (o : op) : bstate V * out :=
       match b_remove b z with
       | Ok (b', old) => (b', UOpt old) | Panic _ => (b, UPanic) | OutOfFuel => (b, UFuel)
       | UB _ => (b, UUB) end
-  | OGet z => (b, lift (h_get h z) UOpt)
-  | OContains z => (b, lift (h_contains h z) UBool)
-  | OGetOrDefault z d => (b, lift (h_get_or_default h z d) UVal)
-  | OLen => (b, lift (len h) UNat)
-  | OIsEmpty => (b, lift (is_empty h) UBool)
+  | OGet z => (b, lift (h_get (flatten b) z) UOpt)
+  | OContains z => (b, lift (h_contains (flatten b) z) UBool)
+  | OGetOrDefault z d => (b, lift (h_get_or_default (flatten b) z d) UVal)
+  | OLen => (b, lift (len (flatten b)) UNat)
+  | OIsEmpty => (b, lift (is_empty (flatten b)) UBool)
   | OGetMutWrite z v =>
       match b_get_mut_write b z v with
       | Ok (b', ok) => (b', UBool ok) | Panic _ => (b, UPanic) | OutOfFuel => (b, UFuel)
       | UB _ => (b, UUB) end
   | OClear => (b_clear b, UUnit)
   | OIter kinds steps =>
-      (b, lift (do pool <- mk_its h kinds; run_steps h pool steps) UItems)
-  | OFirstLast => (b, lift (do f <- first h; do l <- last h; Ok (f, l))
+      (b, lift (do pool <- mk_its (flatten b) kinds; run_steps (flatten b) pool steps) UItems)
+  | OFirstLast => (b, lift (do f <- first (flatten b); do l <- last (flatten b); Ok (f, l))
                            (fun p => UFirstLast (fst p) (snd p)))
   | OSlices =>
-      (b, lift (do i <- items h; do f <- items_fast h; do k <- keys h; do v <- values h;
+      (b, lift (do i <- items (flatten b); do f <- items_fast (flatten b); do k <- keys (flatten b); do v <- values (flatten b);
                 Ok (i, f, k, v))
                (fun '(i, f, k, v) => USlices i f k v))
-  | ORange lo hi => (b, lift (range_collect h lo hi) UList)
-  | OItemsRange s e => (b, lift (items_range_collect h s e) UList)
+  | ORange lo hi => (b, lift (range_collect (flatten b) lo hi) UList)
+  | OItemsRange s e => (b, lift (items_range_collect (flatten b) s e) UList)
   | OFromPos p idx e =>
-      (b, lift (do id <- chain_nth h p;
+      (b, lift (do id <- chain_nth (flatten b) p;
                 match id with
-                | Some i => from_position_collect h i idx e
+                | Some i => from_position_collect (flatten b) i idx e
                 | None => Ok []
                 end) UList)
   | OValidate =>
-      (b, lift (do ci <- check_invariants h; do cid <- check_invariants_detailed h;
-                do vfo <- validate_for_operation h; Ok (ci, cid, vfo))
+      (b, lift (do ci <- check_invariants (flatten b); do cid <- check_invariants_detailed (flatten b);
+                do vfo <- validate_for_operation (flatten b); Ok (ci, cid, vfo))
                (fun '(ci, cid, vfo) => UValidate ci cid vfo))
   | OIntrospect =>
-      (b, lift (do lc <- leaf_count h; do cn <- count_nodes_in_tree h; do ls <- leaf_sizes h;
+      (b, lift (do lc <- leaf_count (flatten b); do cn <- count_nodes_in_tree (flatten b); do ls <- leaf_sizes (flatten b);
                 Ok (lc, cn, ls))
                (fun '(lc, cn, ls) =>
-                  UIntro lc cn ls (is_leaf_root h) (allocated_leaf_count h)
-                         (allocated_branch_count h) (free_leaf_count h) (free_branch_count h)))
+                  UIntro lc cn ls (is_leaf_root (flatten b)) (allocated_leaf_count (flatten b))
+                         (allocated_branch_count (flatten b)) (free_leaf_count (flatten b)) (free_branch_count (flatten b))))
   | OTryGet z | OGetItem z =>
-      (b, lift (h_get h z)
+      (b, lift (h_get (flatten b) z)
                (fun r => match r with Some v => URes (Some v) None
                                  | None => URes None (Some KeyNotFound) end))
   | OGetMany zs =>
-      (b, lift (get_many h zs [])
+      (b, lift (get_many (flatten b) zs [])
                (fun r => match r with Some l => UResList (Some l) None
                                  | None => UResList None (Some KeyNotFound) end))
   | ORemoveItem z =>
